@@ -205,6 +205,8 @@ def run_shard(ctx):
 
     forces = ["scan", "vmap", "indicator", "cond", "vdist", "call", None, "indicator"]
     drive(ctx, histories(forces[ctx.shard % len(forces)], P["max_ops"]), P["n_histories"], one, "hist")
+    nk = modelir.NEST_KINDS  # combinators applied directly to combinators
+    drive(ctx, histories(nk[ctx.shard % len(nk)], P["max_ops"]), P.get("n_nest", max(1, P["n_histories"] // 3)), one, "nest")
 
 
 def replay(case):
